@@ -58,6 +58,19 @@ def world_config(cfg):
             for lname, ldict in wc['layers'].items():
                 if ldict.get('is_tidal'):
                     ldict.setdefault('rheology', {})['complex_compliance'] = {'model': cfg['rheology']}
+    co = cfg.get('config_orbit')
+    if co == 'period':
+        wc['orbital_period'] = 1.769
+    elif co == 'axis_m':
+        wc['semi_major_axis'] = 4.217e8
+        wc['semi_major_axis_in_au'] = False
+    elif co == 'axis_au':
+        wc['semi_major_axis'] = 0.00282
+        wc['semi_major_axis_in_au'] = True
+    if co:
+        wc['eccentricity'] = 0.0041
+        if not cfg['sync']:
+            wc['spin_period'] = 2.5
     wc['force_spin_sync'] = cfg['sync']
     wc['tides'] = tides
     wc['tides_on'] = True
